@@ -41,6 +41,13 @@ def gen_cases(rng, tier):
             # must describe it alike
             sizes[rng.randint(0, nres - 1)] = rng.pick([130, 250])
         cases.append({'kind': 'pipeline', 'sizes': sizes, 'steps': steps, 'splits': splits, 'cond': rng.chance(0.5), 'late': late})
+    # the first link itself: an in-line source of dict rows takes effect as a resource whose fields are the keys of its
+    # first row and whose types are those of each column's values, whatever the order of the keys in the individual rows
+    # and whichever rows lack a key (round 8)
+    for shape in ('plain', 'rotate', 'sparse', 'reverse_some'):
+        for form in ('list', 'gen', 'tuple'):
+            for n_ in ((5, 120) if tier != 'quick' or form != 'tuple' else (5,)):
+                cases.append({'kind': 'source', 'shape': shape, 'form': form, 'n': n_})
     for i in range(max(6, n // 6)):
         cases.append({'kind': 'badlink', 'bad': rng.pick(['none', 'int', 'float', 'two_params', 'wrong_name', 'object_no_call']),
                       'depth': rng.randint(0, 2), 'pos': rng.randint(0, 2)})
@@ -278,7 +285,40 @@ def regroup(steps, splits, cond):
     return out
 
 
+SOURCE_TYPES = [('id', 'integer'), ('name', 'string'), ('amt', 'number'), ('ok', 'boolean'), ('day', 'date')]
+
+
+def source_rows(case):
+    rows = []
+    for j in range(case['n']):
+        r = {'id': j, 'name': 's%d' % j, 'amt': decimal.Decimal(j) / 4, 'ok': j % 2 == 0, 'day': datetime.date(2020, 1, 1 + j % 28)}
+        items = list(r.items())
+        if case['shape'] == 'rotate':
+            k = j % len(items)
+            items = items[k:] + items[:k]
+        elif case['shape'] == 'reverse_some' and j % 3 == 1:
+            items = items[::-1]
+        elif case['shape'] == 'sparse' and j % 2 == 1:
+            items = [kv for kv in items if kv[0] != 'name']
+        rows.append(dict(items))
+    return rows
+
+
+def run_source(case):
+    rows = source_rows(case)
+    link = {'list': lambda: [dict(r) for r in rows], 'tuple': lambda: tuple(dict(r) for r in rows), 'gen': lambda: (dict(r) for r in rows)}[case['form']]()
+    try:
+        with quiet():
+            ds = Flow(link).datastream()
+            got = [[dict(r) for r in res] for res in ds.res_iter]
+        return {'fields': [[f['name'], f['type']] for f in ds.dp.descriptor['resources'][0]['schema']['fields']], 'rows': rows_enc(got[0]), 'nres': len(got)}
+    except Exception as e:
+        return {'error': '%s: %s' % (type(e).__name__, str(e)[:200])}
+
+
 def run_impl(case):
+    if case['kind'] == 'source':
+        return run_source(case)
     if case['kind'] == 'badlink':
         bad = {'none': None, 'int': 5, 'float': 2.5, 'two_params': (lambda row, x: None), 'wrong_name': (lambda record: None),
                'object_no_call': object()}[case['bad']]
@@ -338,6 +378,17 @@ def strip_types(c):
 
 
 def oracle(case, out):
+    if case['kind'] == 'source':
+        what = 'an in-line %s of %d dict rows (%s key order)' % (case['form'], case['n'], case['shape'])
+        if 'error' in out:
+            return '%s failed: %s' % (what, out['error'])
+        if out['fields'] != [list(x) for x in SOURCE_TYPES]:
+            return '%s is described as %r, its columns are %r' % (what, out['fields'], SOURCE_TYPES)
+        rows = source_rows(case)
+        got = rows_dec(out['rows'])
+        if out['nres'] != 1 or len(got) != len(rows) or any(any(g.get(k) != r.get(k) for k, _ in SOURCE_TYPES) for g, r in zip(got, rows)):
+            return '%s: the rows that come out are not the rows that went in' % what
+        return None
     if case['kind'] == 'badlink':
         return 'a link Flow cannot interpret (%s) was accepted and silently skipped' % case['bad'] if out['accepted'] else None
     if 'lazy_error' in out:
@@ -375,6 +426,8 @@ def first_diff(a, b):
 
 
 def coq_term(case, out):
+    if case['kind'] == 'source':
+        return None
     if case['kind'] == 'badlink':
         # model: a chain with an uninterpretable link at that depth is rejected
         inner = ['LStep (fun s => s)'] * 3
@@ -407,7 +460,7 @@ def coq_term(case, out):
 
 
 def nontrivial(case, out):
-    return case['kind'] == 'badlink' or len(case['steps']) >= 2
+    return case['kind'] in ('badlink', 'source') or len(case['steps']) >= 2
 
 
 def shrinks(case):
